@@ -40,6 +40,10 @@ def search(_payload):
                     back = pu.userUnitToUnits(float(val * FACT[u]) if u != '%' else float(val / 100), u)
                     if back is None or not close(back, val):
                         return {'found': True, 'input': f'userUnitToUnits({float(val * FACT[u]) if u != "%" else float(val / 100)}, {u!r})', 'observed': repr(back), 'expected': repr(float(val))}
+                    if u == '%':
+                        g0 = pu.getLength(Alt(text), 'width', 0)
+                        if g0 is None or not close(g0, 0):
+                            return {'found': True, 'input': f'getLength(width={text!r}, default 0)', 'observed': repr(g0), 'expected': '0.0'}
                     gl = pu.getLength(Alt(text), 'width', 300)
                     exp = val * 3 if u == '%' else val * FACT[u]
                     if gl is None or not close(gl, exp):
